@@ -239,5 +239,15 @@ P("C39", "exploration",
   [H("main", "h_transport", 40, 3000, hprop="C39", qworkers=8)], [A_SAN, "virtual time = real + offset; node threads keep running"],
   {"rotation.schedules": 30, "rotation.observations.before-rotation-due": 30, "rotation.probes": 30})
 
+import post_race  # noqa: E402
+
+P("C36", "exploration",
+  "case = one repetition of a daemon-shaped process under ThreadSanitizer with the thread roles and locking discipline of `eph serve`: ControlServer thread (handlers take the node mutex), tick loop (takes the node mutex; virtual time jumps so cleanup and key rotation run), "
+  "transport accept thread and per-session reader threads; 2..4 real peer nodes connect / re-connect, announce, push chunks, request, ack concurrently with 4 control-client threads issuing STORE / FETCH / LIST / STATUS / DEFAULTS / DIAGNOSTICS, with sched_yield / short sleeps between harness operations; "
+  "every TSan report is classified by owner object family or function pair; descriptor life-cycle reports (close vs blocked recv, Session::socket) are counted but out of scope; distinct = repetition",
+  [H("main", "h_race", 8, 240, flavour="tsan", qworkers=8, tworkers=8, post=post_race.post_c36, params={"run_ms": 1500})],
+  ["ThreadSanitizer (g++ -fsanitize=thread) sees only the interleavings that occurred and only synchronisation it intercepts", "the daemon shape (who takes node_mutex) is copied from src/main.cpp by hand"],
+  {"race.repetitions": 5, "race.overlap.tick-x-peer": 20, "race.overlap.control-x-peer": 20, "race.peer-ops": 100, "race.control-ops": 60})
+
 NOT_APPLICABLE = {}
 HOOK_COMMITS = []
